@@ -759,4 +759,38 @@ theorem u16len_take_mono (l : Txt) {a b : Nat} (hab : a ≤ b) (hb : b ≤ l.len
 theorem docLines_get (doc : Txt) (i : Nat) : (docLines doc)[i]? = ((lines doc)[i]?).map stripCR := by
   simp [docLines]
 
+/-! ### Include links (fix-link-range.diff) -/
+
+theorem indexOf_spec {pat s : Txt} {i p : Nat} (h : indexOf pat s i = some p) :
+    i ≤ p ∧ p - i + pat.length ≤ s.length ∧ (s.drop (p - i)).take pat.length = pat := by
+  induction s generalizing i with
+  | nil =>
+    simp only [indexOf] at h
+    split at h
+    · rename_i he
+      simp at h; subst h
+      have : pat = [] := by simpa using he
+      subst this; simp
+    · simp at h
+  | cons c r ih =>
+    simp only [indexOf] at h
+    split at h
+    · rename_i hp
+      simp at h; subst h
+      have hpre := List.isPrefixOf_iff_prefix.mp hp
+      obtain ⟨t, ht⟩ := hpre
+      refine ⟨Nat.le_refl _, ?_, ?_⟩
+      · have := congrArg List.length ht
+        simp at this; simp; omega
+      · simp only [Nat.sub_self, List.drop_zero]
+        rw [← ht]; simp
+    · obtain ⟨h1, h2, h3⟩ := ih h
+      refine ⟨by omega, by simp; omega, ?_⟩
+      have : p - i = (p - (i + 1)) + 1 := by omega
+      rw [this, List.drop_succ_cons]; exact h3
+
+theorem u16len_take_add (l : Txt) (a n : Nat) :
+    u16len (l.take (a + n)) = u16len (l.take a) + u16len ((l.drop a).take n) := by
+  rw [← u16len_append, ← List.take_add]
+
 end HL.Lemmas.Ranges
